@@ -145,12 +145,12 @@ Definition widen32 (b : N) : N :=
   else s * 2^63 + (e + 896) * 2^52 + m * 2^29.
 
 (* decoding into a non-nil interface{} holding `old` *)
-Definition dec_any_into (fuel : nat) (old : aval) (id : N) : dec aval :=
+Definition dec_any_into (fuel : nat) (dep : N) (old : aval) (id : N) : dec aval :=
   match old with
   | ADouble _ =>
       if id =? idFloat then v <- rd_i32 ;; Ret (ADouble (widen32 (u32 v)))
-      else x <- dec_ty fuel GF64 id ;; Ret (rewrap old x)
-  | _ => x <- dec_ty fuel (dyn_ty old) id ;; Ret (rewrap old x)
+      else x <- dty fuel dep GF64 id ;; Ret (rewrap old x)
+  | _ => x <- dty fuel dep (dyn_ty old) id ;; Ret (rewrap old x)
   end.
 
 (* `for { tt, tn := readTag(); if tt == TagEnd { break }; acc = step(tt, tn, acc) }` *)
@@ -181,42 +181,48 @@ Definition is_byteish (t : gty) : bool := match t with GBool | GI8 | GU8 => true
 Definition byte_elem_of (t : gty) (b : N) : tval :=
   match t with GBool => XBool (negb (b =? 0)) | GI8 => XInt (sx8 b) | _ => XInt (Z.of_N b) end.
 
-Fixpoint dec_st (fuel : nat) (ty : sty) (cur : sval) (id : N) : dec sval :=
+(* `dep`: how many TagList / TagCompound values the Decoder may still enter (Decoder.enter, fix e74e260); the
+   counter belongs to the Decoder, so skipped fields (rawRead) and nested values share it, while a RawMessage
+   field reads through a Decoder of its own *)
+Fixpoint dst (fuel : nat) (dep : N) (ty : sty) (cur : sval) (id : N) : dec sval :=
   match fuel with
   | O => NoFuel
   | S f =>
       match ty with
-      | SB t => x <- dec_ty fuel t id ;; Ret (YB x)
+      | SB t => x <- dty fuel dep t id ;; Ret (YB x)
       | SAny =>
           match cur with
-          | YAny (Some old) => a <- dec_any_into fuel old id ;; Ret (YAny (Some a))
-          | _ => a <- dec_any fuel id ;; Ret (YAny (Some a))
+          | YAny (Some old) => a <- dec_any_into fuel dep old id ;; Ret (YAny (Some a))
+          | _ => a <- dany fuel dep id ;; Ret (YAny (Some a))
           end
       | SMap =>
           if id =? idCompound then
+            if dep =? 0 then Fail eDepth else
             let m0 := match cur with YMap (Some m) => m | _ => [] end in
-            m <- comp_loop f rd_tag (dec_any f) (fun k v m => map_set k v m) m0 ;; Ret (YMap (Some m))
+            m <- comp_loop f rd_tag (dany f (dep - 1)) (fun k v m => map_set k v m) m0 ;; Ret (YMap (Some m))
           else misfit id
       | SRaw => r <- dec_raw fuel id ;; Ret (YRaw (fst r) (snd r))
       | SPtr t =>
           if id =? idEnd then Fail eEND
           else
             let c := match cur with YPtr (Some c) => c | _ => zero t end in
-            v <- dec_st f t c id ;; Ret (YPtr (Some v))
-      | SList (SB e) => x <- dec_ty fuel (GSl e) id ;; Ret (YList (match x with XSlice l => map YB l | _ => [] end))
+            v <- dst f dep t c id ;; Ret (YPtr (Some v))
+      | SList (SB e) => x <- dty fuel dep (GSl e) id ;; Ret (YList (match x with XSlice l => map YB l | _ => [] end))
       | SList t =>
           if id =? idList then
+            if dep =? 0 then Fail eDepth else
             et <- rd_u8 ;; n <- rd_i32 ;;
             if (n <? 0)%Z then Fail eNeg
-            else l <- rep f (Z.to_N n) (dec_st f t (zero t) et) [] ;; Ret (YList l)
+            else l <- rep f (Z.to_N n) (dst f (dep - 1) t (zero t) et) [] ;; Ret (YList l)
           else misfit id
       | SArr len t =>
           let c := match cur with YArr l => l | _ => repeat (zero_ty t) (N.to_nat len) end in
           if id =? idList then
+            if dep =? 0 then Fail eDepth else
             et <- rd_u8 ;; n <- rd_i32 ;;
             if (n <? 0)%Z then Fail eNeg
             else if (Z.of_N (lenN c) <? n)%Z then Fail eType                 (* array shorter than the list *)
-            else l <- arr_loop f (Z.to_N n) (dec_ty f t et) [] c ;; Ret (YArr l)
+            else l <- arr_loop f (Z.to_N n) (dty f (dep - 1) t et) [] c ;; Ret (YArr l)
           else if id =? idByteArray then                                       (* since fix 862b2b8 *)
             n <- rd_i32 ;;
             if (n <? 0)%Z then Fail eNeg
@@ -243,17 +249,19 @@ Fixpoint dec_st (fuel : nat) (ty : sty) (cur : sval) (id : N) : dec sval :=
           else misfit id
       | SStruct fs =>
           if id =? idCompound then
+            if dep =? 0 then Fail eDepth else
             let c := match cur with YStruct l => l | _ => map (fun fd => zero (snd fd)) fs end in
             l <- st_loop f (fun tt tn acc =>
                    match find_field fs tn with
                    | Some (i, fty) =>                                        (* val.Field(i), then unmarshal into it *)
-                       v <- dec_st f fty (nth i acc (zero fty)) tt ;; Ret (set_nth i v acc)
-                   | None => _ <- dec_skip f tt ;; Ret acc                   (* unknown field: rawRead *)
+                       v <- dst f (dep - 1) fty (nth i acc (zero fty)) tt ;; Ret (set_nth i v acc)
+                   | None => _ <- dskip f (dep - 1) tt ;; Ret acc            (* unknown field: rawRead, same Decoder *)
                    end) c ;;
             Ret (YStruct l)
           else misfit id
       end
   end.
+Definition dec_st (fuel : nat) (ty : sty) (cur : sval) (id : N) : dec sval := dst fuel max_open ty cur id.
 
 (* pointers cost fuel but consume no input: the fuel needed is the input length plus the nesting depth of the shape *)
 Fixpoint sdepth (t : sty) : nat :=
